@@ -24,8 +24,9 @@ RULE = (
     "strings over the 256-character code page: exhaustive up to length 3 (quick) / 4 (thorough) over "
     "the escape-relevant subset {\\ ` \" ' newline a n x 0 λ}; all 65 536 two-character code-page "
     "strings; thorough adds every three-character code-page string containing \\ or `; random strings "
-    "of length 5..40 over the whole code page (40 % escape-relevant characters) with compression off, "
-    "and over printable ASCII with compression on and off. A string is non-trivial when it is "
+    "of length 5..40 over the whole code page (share of escape-relevant characters drawn per string from "
+    "25 % to 100 %) with compression off, and over printable ASCII with compression on and off; runs of one or "
+    "two alternating escape-relevant characters at every length 1..40 with 28 prefix/suffix alignments. A string is non-trivial when it is "
     "non-empty; distinct_nontrivial counts distinct strings whose quoted text was actually executed "
     "(exhaustive families are disjoint by construction, random ones are hashed)."
 )
@@ -41,6 +42,7 @@ MIN_COUNTERS = {
     "text_runs_dict_on": {"quick": 10000, "thorough": 140000},
     "compression_on_then_off_histories": {"quick": 6000, "thorough": 60000},
     "quote_under_flag_runs": {"quick": 10000, "thorough": 100000},
+    "run_strings": {"quick": 20000, "thorough": 20000},
 }
 UNIT_TIMEOUT = 900
 
@@ -69,6 +71,9 @@ def units(tier, seed):
     if tier == "thorough":
         for lo in range(0, 256, 4):
             u.append({"kind": "cp3esc", "lo": lo, "hi": lo + 4})
+    # runs of one or two escape-relevant characters at every length <= 40 and every alignment
+    for i in range(len(RUN_CHARS)):
+        u.append({"kind": "runs", "g": i})
     n_cp, n_ascii, per = (40000, 20000, 1000) if tier == "quick" else (800000, 300000, 5000)
     for k in range(n_cp // per):
         u.append({"kind": "rand_cp", "seed": f"C06:{seed}:cp:{k}", "n": per})
@@ -217,14 +222,20 @@ def check_string(acc, s):
         _run_text_checked(acc, s, "lit", lit, True)
 
 
+RUN_CHARS = ["\\", "`", '"', "'", "\n", "{", "%"]
+DENSITIES = [0.25, 0.25, 0.25, 0.5, 0.8, 0.95, 1.0]
+
+
 def _rand_cp(r, cp):
     n = r.randint(5, 40)
     out = []
+    d = r.choice(DENSITIES)  # share of escape-relevant characters in this string
+    pool = ESC if d <= 0.25 else r.choice([ESC, "\\", '\\"', '\\`"\n', '"\n'])
     for _ in range(n):
         x = r.random()
-        if x < 0.25:
-            out.append(r.choice(ESC))
-        elif x < 0.40:
+        if x < d:
+            out.append(r.choice(pool))
+        elif x < d + 0.15:
             out.append(r.choice(SUBSET))
         else:
             out.append(r.choice(cp))
@@ -237,11 +248,13 @@ ASCII = [chr(i) for i in range(0x20, 0x7F)]
 def _rand_ascii(r):
     n = r.randint(5, 40)
     out = []
+    d = r.choice(DENSITIES)
+    pool = ESC if d <= 0.25 else r.choice([ESC, "\\", '\\"', '\\`"', '"{'])
     for _ in range(n):
         x = r.random()
-        if x < 0.25:
-            out.append(r.choice(ESC))
-        elif x < 0.35:
+        if x < d:
+            out.append(r.choice(pool))
+        elif x < d + 0.10:
             out.append(r.choice('"\'anx0 {}%'))
         else:
             out.append(r.choice(ASCII))
@@ -283,6 +296,26 @@ def _run_kind(acc, unit, k, cp, subset):
                     check_string(acc, s)
                     res["distinct"] += 1
             res["samples"].append({"s": first + "\\`", "literal": model_literal(first + "\\`")})
+    elif k == "runs":
+        g = RUN_CHARS[unit["g"]]
+        seen = set()
+        for L in range(1, 41):
+            for pre in ("", "a", "ab", "λ", "aλb", "`", "\\"):
+                for post in ("", "a", "\\", "`"):
+                    m = L - len(pre) - len(post)
+                    if m < 1:
+                        continue
+                    cands = [pre + g * m + post]
+                    for g2 in RUN_CHARS:
+                        if g2 != g:
+                            cands.append(pre + ((g + g2) * m)[:m] + post)
+                    for s in cands:
+                        if s in seen:
+                            continue
+                        seen.add(s)
+                        check_string(acc, s)
+                        res["keys"].append(short_hash(s))
+                        acc.c["run_strings"] = acc.c.get("run_strings", 0) + 1
     elif k == "cp2":
         for a in range(unit["lo"], unit["hi"]):
             ca = cp[a]
